@@ -140,11 +140,15 @@ def step (cfg : Cfg) (s : State) : Op → Except Err State
     let s1 ← run s fl
     pure { s1 with deposited := bump s1.deposited g n }
   | .send c g u n fee => do
+    -- `MsgSendToExternal.ValidateBasic` (run by the crosschain message router): amount and fee positive
+    if n = 0 ∨ fee = 0 then .error .invalid else
     let some k := bridged cfg g c | .error .notFound
     let cs := s.chains c
     let s1 ← run s (baseCoinToBridgeToken k g c (U u) (n + fee))
     pure (setChain s1 c { cs with pool := cs.pool ++ [⟨cs.nextTx, u, g, n, fee, false⟩], nextTx := cs.nextTx + 1 })
   | .xsend c g u n fee => do
+    -- `CrossChainArgs.Validate`: amount positive
+    if n = 0 then .error .invalid else
     let some kp := cfg.kind g | .error .notFound
     let some k := bridged cfg g c | .error .notFound
     let cs := s.chains c
